@@ -597,6 +597,7 @@ func c13Long(c *core.Collector, x *Ctx) {
 			c.Inconclusive()
 			return
 		}
+		time.Sleep(500 * time.Millisecond) // (let the start-up probe connection of svc.Start be torn down first)
 		for round := 0; round < 3; round++ {
 			c.Eval()
 			t, err := svc.Dial(srvE.Addr, round%2 == 1, "0")
@@ -615,8 +616,16 @@ func c13Long(c *core.Collector, x *Ctx) {
 				return
 			}
 			res := sendCmd(srvE.G, "", consts.P8104QueryTerminalParams, nil, 100*time.Millisecond, 100*time.Millisecond+slackFor(100*time.Millisecond))
-			if res.kind == "stranded" || res.kind == "notexist" {
+			if res.kind == "stranded" {
 				c.Violate("stranded|SendActiveMessage did not return within timeout + slack|empty-key session", "command to the online terminal registered under the empty key: "+res.kind, nil)
+			}
+			if res.kind == "notexist" {
+				// the empty key is also what a connection that never joined hands to leave(): the start-up probe of svc.Start
+				// (connect and close) can be torn down this late and take the registration with it. That is the library's
+				// treatment of the empty key, outside what C13 states: this round says nothing.
+				c.Inconclusive()
+				t.Close()
+				continue
 			}
 			if round%2 == 0 {
 				t.Reset()
